@@ -339,7 +339,9 @@ func (w *World) registerHTTPIntrinsics() {
 				dot = mkIte(mkOr(hasScheme, hasHost), mkStr(""), mkStr("./"))
 			}
 			query := mkIte(mkOr(force, mkNot(mkEq(rawq, mkStr("")))), mkConcat(mkStr("?"), rawq), mkStr(""))
-			return mkConcat(mkIte(hasScheme, mkConcat(scheme, mkStr(":")), mkStr("")), auth, sep, dot, mkStr(ep), query)
+			res := mkConcat(mkIte(hasScheme, mkConcat(scheme, mkStr(":")), mkStr("")), auth, sep, dot, mkStr(ep), query)
+			e.hidden["urlstring:"+res.String()] = true // (re-parsing it succeeds: see url.Parse)
+			return res
 		}
 		return mkUF("url_String", SStr, sargs...)
 	}
@@ -500,7 +502,8 @@ func (w *World) registerHTTPIntrinsics() {
 			return tuple(&Pointer{obj: e.newObject(t, &StructVal{fs}, "url")}, nilIface)
 		}
 		// re-parsing the String() of an already parsed URL succeeds
-		if s.op != "uf:url_String" && !e.branch(mkUF("urlparse_ok", SBool, s)) {
+		_, fromString := e.hidden["urlstring:"+s.String()]
+		if s.op != "uf:url_String" && !fromString && !e.branch(mkUF("urlparse_ok", SBool, s)) {
 			return tuple(&Pointer{}, e.newError("parse error"))
 		}
 		for i := 0; i < st.NumFields(); i++ {
